@@ -353,8 +353,12 @@ func sysexSizes(part, parts int) {
 				}
 			}
 		}
-		for _, l := range lens {
-			stream := []byte{0xF0}
+		for li, l := range lens {
+			// something happened on the wire before (alternating over the lengths):
+			// nothing, a stray F7, an empty sysex, two stray F7, a note-on cut short
+			prefix := [][]byte{nil, {0xF7}, {0xF0, 0xF7}, {0xF7, 0xF7}, {0x90, 0x3C}, {0xF0, 0x01, 0x90}}[(li+si)%6]
+			stream := append([]byte{}, prefix...)
+			stream = append(stream, 0xF0)
 			for i := 0; i < l-2; i++ {
 				stream = append(stream, byte(i%100))
 			}
@@ -366,6 +370,10 @@ func sysexSizes(part, parts int) {
 			if l <= 300 {
 				ctx.Eval()
 				feedSized(cfg, eff, stream, nil)
+			}
+			if len(prefix) > 0 {
+				ctx.Eval()
+				feedSized(cfg, eff, stream, []int{len(prefix), len(stream) - len(prefix)})
 			}
 			ctx.Add("sysex_size_cases", 1)
 		}
@@ -590,6 +598,37 @@ func relistenSizes() {
 	}
 }
 
+// hugeBuffers: buffer sizes of a megabyte and more with sysex messages just
+// inside and just outside.
+func hugeBuffers() {
+	for _, size := range []int{1 << 20, 1<<20 + 1, 1 << 21, 5000000} {
+		for _, l := range []int{size - 1, size, size + 1, 1<<20 - 1, 1<<20 + 2} {
+			if l > size+1 {
+				continue
+			}
+			stream := make([]byte, 0, l+4)
+			stream = append(stream, 0xF0)
+			for i := 0; i < l-2; i++ {
+				stream = append(stream, byte(i%100))
+			}
+			stream = append(stream, 0xF7, 0x90, 0x3C, 0x40)
+			ctx.Eval()
+			ctx.Add("huge_buffer_cases", 1)
+			lp := ls.NewLoop(ls.Options{SysEx: true, TimeCode: true, ActiveSense: true, BufSize: uint32(size)})
+			_, c := lp.Send(stream)
+			got := lp.Take()
+			wantSysex := l <= size
+			gotSysex := len(got) > 0 && len(got[0].Msg) == l
+			note := len(got) > 0 && string(got[len(got)-1].Msg) == string([]byte{0x90, 0x3C, 0x40})
+			if c.Panicked {
+				report(c.Sig+":huge-buffer", config{true, uint32(size)}, stream[:8], nil, fmt.Sprintf("buffer %d, sysex of %d bytes: Send panicked: %s", size, l, c.Value))
+			} else if wantSysex != gotSysex || !note || len(got) > 2 {
+				report("deliver:huge-buffer", config{true, uint32(size)}, stream[:8], nil, fmt.Sprintf("buffer %d, sysex of %d bytes: %d deliveries, sysex delivered=%v (expected %v), note delivered=%v", size, l, len(got), gotSysex, wantSysex, note))
+			}
+		}
+	}
+}
+
 func feedSized(cfg config, eff int, stream []byte, chunks []int) {
 	refBuf = eff
 	feed(cfg, stream, chunks, 0)
@@ -644,7 +683,7 @@ func main() {
 	ctx.Jobs("long-chunks", 2*nl*nl, func(j int) { longChunks(cfgs[j/(nl*nl)], (j/nl)%nl, j%nl) })
 	ctx.Jobs("sysex-words", 10, func(j int) { sysexWords(j, 10) })
 	ctx.Jobs("long-lived", 4, func(j int) { longLived(j) })
-	ctx.Jobs("long-pauses", 1, func(int) { longPauses(); relistenSizes() })
+	ctx.Jobs("long-pauses", 1, func(int) { longPauses(); relistenSizes(); hugeBuffers() })
 	ctx.Set("traces_validated_against_impl", ctx.GetInt("transitions"))
 	ctx.Set("max_depth", ctx.GetInt("max:depth"))
 	ctx.Set("byte_classes", len(ls.Classes))
